@@ -248,12 +248,20 @@ where
                 let incarnation = tx_state.incarnation;
                 let dependency = tx_state.dependency;
                 tx_state.status = TransactionStatus::Finality;
+                #[cfg(feature = "verif")]
+                crate::verif::event(crate::verif::Event::Finality { idx: finality_idx, incarnation });
                 drop(tx_state);
 
+                #[cfg(feature = "verif")]
+                crate::verif::point(crate::verif::Point::FinalityBeforePublish, finality_idx, 0);
                 let next_finality_idx = finality_idx + 1;
                 self.scheduler_ctx.publish_finality(next_finality_idx);
+                #[cfg(feature = "verif")]
+                crate::verif::event(crate::verif::Event::FinalityPublished { idx: next_finality_idx });
                 if finality_idx == previous_finality_idx {
                     // Start commit as soon as the first transaction in this batch is visible.
+                    #[cfg(feature = "verif")]
+                    crate::verif::point(crate::verif::Point::FinalityBeforeNotify, finality_idx, 0);
                     self.commit_wait.notify();
                 }
 
@@ -269,6 +277,8 @@ where
                 if finality_idx - previous_finality_idx > 1 {
                     // Commit may have caught the first notification while this batch was still
                     // publishing. Wake it once more for the completed suffix.
+                    #[cfg(feature = "verif")]
+                    crate::verif::point(crate::verif::Point::FinalityBeforeNotify, finality_idx, 1);
                     self.commit_wait.notify();
                 }
                 thread::yield_now();
@@ -298,20 +308,43 @@ where
         finality_idx: usize,
         lower_ts: usize,
     ) -> Option<(MutexGuard<'_, TxState>, usize)> {
+        #[cfg(feature = "verif")]
+        crate::verif::point(crate::verif::Point::FinalityCandidateEntry, finality_idx, lower_ts);
         if finality_idx >= self.block_size || finality_idx >= self.scheduler_ctx.validation_idx() {
+            #[cfg(feature = "verif")]
+            if finality_idx < self.block_size {
+                crate::verif::event(crate::verif::Event::FinalityBlocked {
+                    idx: finality_idx,
+                    why: crate::verif::FinalityBlock::Cursor,
+                });
+            }
             return None;
         }
         // Read the validation frontier first, then decide status and timestamp eligibility under
         // the transaction lock. Together with contiguous finality, this prevents a candidate from
         // passing a rewind that invalidates it or an earlier transaction.
         let tx_state = self.tx_states[finality_idx].lock();
+        #[cfg(feature = "verif")]
+        crate::verif::point(crate::verif::Point::FinalityCandidateLocked, finality_idx, 0);
         if tx_state.status != TransactionStatus::Unconfirmed {
+            #[cfg(feature = "verif")]
+            crate::verif::event(crate::verif::Event::FinalityBlocked {
+                idx: finality_idx,
+                why: crate::verif::FinalityBlock::Status,
+            });
             return None;
         }
 
         // Carry the largest rewind timestamp through the contiguous prefix: every later candidate
         // must have been validated after that rewind as well.
         let effective_lower_ts = max(lower_ts, self.scheduler_ctx.lower_timestamp(finality_idx));
+        #[cfg(feature = "verif")]
+        if self.scheduler_ctx.unconfirmed_timestamp(finality_idx) <= effective_lower_ts {
+            crate::verif::event(crate::verif::Event::FinalityBlocked {
+                idx: finality_idx,
+                why: crate::verif::FinalityBlock::Timestamp,
+            });
+        }
         (self.scheduler_ctx.unconfirmed_timestamp(finality_idx) > effective_lower_ts)
             .then_some((tx_state, effective_lower_ts))
     }
@@ -328,6 +361,8 @@ where
         while !self.is_aborted() && commit_idx < self.block_size {
             let previous_commit_idx = commit_idx;
             while commit_idx < self.scheduler_ctx.finality_idx() {
+                #[cfg(feature = "verif")]
+                crate::verif::point(crate::verif::Point::CommitBeforeTake, commit_idx, 0);
                 let Some(tx_result) = self.tx_results[commit_idx].lock().take() else {
                     self.abort(AbortReason::ParallelError {
                         txid: commit_idx,
@@ -335,6 +370,12 @@ where
                     });
                     return CommitLoopResult { committed: output, error: None };
                 };
+                #[cfg(feature = "verif")]
+                {
+                    crate::verif::event(crate::verif::Event::CommitTake { txid: commit_idx });
+                    let incarnation = self.tx_states[commit_idx].lock().incarnation;
+                    crate::verif::commit_meta(commit_idx, incarnation, self.env.beneficiary, &tx_result);
+                }
                 let Ok(result) = tx_result.execute_result else {
                     // A transaction with an EVM error must never reach finality. This is a
                     // parallel scheduler inconsistency, so replay it from the committed state
@@ -352,12 +393,21 @@ where
                 match outcome {
                     Ok(CommitOutcome::Committed(committed)) => {
                         let next_commit_idx = committed.index();
+                        #[cfg(feature = "verif")]
+                        crate::verif::point(crate::verif::Point::CommitBeforePublish, commit_idx, 0);
                         self.scheduler_ctx.publish_commit(next_commit_idx);
+                        #[cfg(feature = "verif")]
+                        {
+                            crate::verif::event(crate::verif::Event::CommitPublished { idx: next_commit_idx });
+                            crate::verif::point(crate::verif::Point::CommitBeforeRelease, commit_idx, 0);
+                        }
                         // Publish committed state before releasing work that may require it.
                         self.tx_dependency.commit(commit_idx);
                         commit_idx = next_commit_idx;
                     }
                     Ok(CommitOutcome::NeedsSequentialFallback) => {
+                        #[cfg(feature = "verif")]
+                        crate::verif::event(crate::verif::Event::CommitNonceFallback { txid: commit_idx });
                         // The problematic transaction remains uncommitted. Keep the cursor at its
                         // index so sequential fallback revalidates it before processing the suffix.
                         self.abort(AbortReason::FallbackSequential);
@@ -437,17 +487,23 @@ where
                 let _scope_cancel = self.cancel_on_panic();
                 let finality_thread = scope.spawn(|| {
                     let _cancel = self.cancel_on_panic();
+                    #[cfg(feature = "verif")]
+                    let _verif = crate::verif::thread_guard(crate::verif::Role::Finality);
                     self.run_finality_loop();
                     self.metrics.record_execution_time(start_time.elapsed());
                 });
                 let commit_thread = scope.spawn(|| {
                     let _cancel = self.cancel_on_panic();
+                    #[cfg(feature = "verif")]
+                    let _verif = crate::verif::thread_guard(crate::verif::Role::Commit);
                     self.run_commit_loop(&mut committer)
                 });
                 let mut workers = Vec::with_capacity(concurrency_level);
                 for _ in 0..concurrency_level {
                     workers.push(scope.spawn(|| {
                         let _cancel = self.cancel_on_panic();
+                        #[cfg(feature = "verif")]
+                        let _verif = crate::verif::thread_guard(crate::verif::Role::Worker);
                         let incarnation_db =
                             IncarnationDb::new(&state_view, &self.mv_memory, &beneficiary);
                         let mut cfg = self.cfg.clone();
@@ -539,6 +595,8 @@ where
         // Cursor claims are advisory and may become stale after a rewind. The locked status and
         // incarnation are the authority for whether this task may execute.
         if tx_state.status != TransactionStatus::Executing {
+            #[cfg(feature = "verif")]
+            crate::verif::event(crate::verif::Event::ExecStale { txid });
             return None;
         }
         if tx_state.incarnation != incarnation {
@@ -551,8 +609,19 @@ where
         self.metrics.record_execution_attempt();
 
         let tx_env = self.txs[txid].clone();
+        #[cfg(feature = "verif")]
+        {
+            crate::verif::event(crate::verif::Event::ExecBegin {
+                txid,
+                incarnation,
+                at_commit_head: self.scheduler_ctx.committed_idx() == txid,
+            });
+            crate::verif::point(crate::verif::Point::ExecBeforeRun, txid, incarnation);
+        }
         let IncarnationExecution { result, accesses } =
             executor.execute_incarnation(tx_version.clone(), tx_env);
+            #[cfg(feature = "verif")]
+            crate::verif::point(crate::verif::Point::ExecAfterRun, txid, incarnation);
 
         // If this incarnation expands its write set, already validated suffix transactions may
         // have missed a new predecessor and validation must rewind to this transaction. Existing
@@ -589,6 +658,17 @@ where
                     write_new_locations = true;
                 }
 
+                #[cfg(feature = "verif")]
+                crate::verif::event(crate::verif::Event::ExecEnd {
+                    txid,
+                    incarnation,
+                    outcome: if conflict {
+                        crate::verif::ExecOutcome::OkBlocked
+                    } else {
+                        crate::verif::ExecOutcome::Ok
+                    },
+                    new_locations: write_new_locations,
+                });
                 let history_published = if conflict {
                     beneficiary.record_estimate(&tx_version)
                 } else {
@@ -646,6 +726,22 @@ where
                     execute_result: Err(e),
                 });
 
+                #[cfg(feature = "verif")]
+                {
+                    crate::verif::event(crate::verif::Event::ExecEnd {
+                        txid,
+                        incarnation,
+                        outcome: if blocked_on_estimate {
+                            crate::verif::ExecOutcome::ErrBlocked
+                        } else if invalid_transaction {
+                            crate::verif::ExecOutcome::ErrInvalid
+                        } else {
+                            crate::verif::ExecOutcome::ErrFatal
+                        },
+                        new_locations: false,
+                    });
+                    crate::verif::point(crate::verif::Point::ExecErrBeforeKey, txid, incarnation);
+                }
                 if blocked_on_estimate {
                     if blocked_by_beneficiary {
                         self.metrics.record_beneficiary_conflict();
@@ -667,9 +763,13 @@ where
             }
         }
 
+        #[cfg(feature = "verif")]
+        crate::verif::point(crate::verif::Point::ExecBeforeStatus, txid, incarnation);
         tx_state.status =
             if conflict { TransactionStatus::Conflict } else { TransactionStatus::Executed };
         self.scheduler_ctx.executed(txid);
+        #[cfg(feature = "verif")]
+        crate::verif::point(crate::verif::Point::ExecAfterStatus, txid, incarnation);
 
         if let Some(next) = next {
             self.scheduler_ctx.rewind_validation_to(txid);
@@ -695,6 +795,8 @@ where
         let mut tx_state = self.tx_states[txid].lock();
         let tx_result = self.tx_results[txid].lock();
         if tx_state.status != TransactionStatus::Validating {
+            #[cfg(feature = "verif")]
+            crate::verif::event(crate::verif::Event::ValidationStale { txid });
             return None;
         }
         if tx_state.incarnation != incarnation {
@@ -723,12 +825,19 @@ where
         // Capture the timestamp before scanning. A concurrent later rewind then has a newer lower
         // bound and prevents this validation from reaching finality.
         let ts = self.scheduler_ctx.logical_timestamp();
+        #[cfg(feature = "verif")]
+        {
+            crate::verif::event(crate::verif::Event::ValidationBegin { txid, incarnation });
+            crate::verif::point(crate::verif::Point::ValidateAfterTimestamp, txid, incarnation);
+        }
         // Every read must still resolve to the same latest preceding incarnation, and that write
         // must not be an estimate. A storage-origin read remains valid only when no preceding
         // multi-version write exists.
         let mut conflict = false;
         let mut dependency: Option<TxId> = None;
         for (location, version) in result.read_set.iter() {
+            #[cfg(feature = "verif")]
+            crate::verif::point(crate::verif::Point::ValidateScanItem, txid, incarnation);
             if let ReadVersion::Beneficiary(expected) = version {
                 let validation = beneficiary.validate(txid, expected);
                 if !validation.is_valid() {
@@ -763,10 +872,14 @@ where
                 conflict = true;
             }
         }
+        #[cfg(feature = "verif")]
+        crate::verif::point(crate::verif::Point::ValidateAfterScan, txid, incarnation);
         if conflict {
             self.metrics.record_version_conflict();
             // Readers must not validate against writes produced by an invalid incarnation.
             self.mark_mv_estimate(txid, &result.write_set);
+            #[cfg(feature = "verif")]
+            crate::verif::point(crate::verif::Point::ValidateAfterEstimate, txid, incarnation);
             if !beneficiary.invalidate(&tx_version) {
                 self.abort(AbortReason::ParallelError {
                     txid,
@@ -785,6 +898,8 @@ where
             TransactionStatus::Unconfirmed
         };
         tx_state.dependency = dependency;
+        #[cfg(feature = "verif")]
+        crate::verif::event(crate::verif::Event::ValidationEnd { txid, incarnation, ok: !conflict });
 
         if conflict {
             // update dependency
@@ -793,6 +908,8 @@ where
         }
         drop(tx_result);
         drop(tx_state);
+        #[cfg(feature = "verif")]
+        crate::verif::point(crate::verif::Point::ValidateBeforeNotify, txid, incarnation);
         if txid == self.scheduler_ctx.finality_idx() {
             self.finality_wait.notify();
         }
@@ -816,6 +933,12 @@ where
 
     fn execution_task(&self, execute_id: TxId) -> Option<Task> {
         let mut tx = self.tx_states[execute_id].lock();
+        #[cfg(feature = "verif")]
+        crate::verif::event(crate::verif::Event::ExecTask {
+            txid: execute_id,
+            status: crate::verif::status_code(&tx.status),
+            incarnation: tx.incarnation,
+        });
         match tx.status {
             TransactionStatus::Initial | TransactionStatus::Conflict => {
                 tx.status = TransactionStatus::Executing;
@@ -836,6 +959,8 @@ where
 
     fn next(&self) -> Option<Task> {
         while !self.scheduler_ctx.finished() && !self.is_aborted() {
+            #[cfg(feature = "verif")]
+            crate::verif::point(crate::verif::Point::NextLoop, 0, 0);
             if !self.scheduler_ctx.should_schedule(self.tx_dependency.index()) {
                 thread::yield_now();
             }
@@ -843,7 +968,17 @@ where
             if let Some(validation_idx) =
                 self.scheduler_ctx.next_validation_idx(self.tx_dependency.index())
             {
+                #[cfg(feature = "verif")]
+                crate::verif::point(crate::verif::Point::ValidationClaimed, validation_idx, 0);
                 let mut tx = self.tx_states[validation_idx].lock();
+                #[cfg(feature = "verif")]
+                crate::verif::event(crate::verif::Event::ValidationClaim {
+                    idx: validation_idx,
+                    accepted: matches!(
+                        tx.status,
+                        TransactionStatus::Executed | TransactionStatus::Unconfirmed
+                    ),
+                });
                 // Rewinds can make cursor claims duplicate or stale; state under this lock decides
                 // whether a validation task still exists.
                 match tx.status {
